@@ -99,6 +99,9 @@ PARSERS = [
     ("common", "MetadataBase", "_assert_matches_re"), ("common", "MetadataBase", "_assert_type"),
     ("common", "MetadataBase", "_assert_value"), ("common", "MetadataBase", "_assert_not_blank"),
 ]
+# helpers of the pinned tree that validators reach and that were read by hand: bounded loops over the variant forest / the
+# object's own containers, not over the characters of an input string
+KNOWN_HELPERS = {"composeinfo.VariantBase._get_all_parents": "walks the parent chain, which add() keeps acyclic (C11)"}
 ALLOWED_RECURSION = {"common.create_release_id": "recurses once for the base product, without base-product arguments"}
 
 
@@ -131,6 +134,22 @@ def r_no_unbounded(model, rep):
                         ok, msg = False, "recursive call passes base-product arguments on (unbounded recursion)"
             else:
                 ok, msg = False, "recursion on the input in a validator/parser (line %s)" % rec[0].lineno
+        if ok:
+            # helpers the parser/validator calls (resolved exactly) are part of it: a helper that loops with ``while`` or that
+            # calls itself again - directly or through others - does work the length of the input does not bound polynomially
+            # (enumerating all groupings of k dash-separated pieces is 2^(k-1) steps without a single regular expression)
+            callees = model.summaries()["callees_exact"]
+            for g in sorted(model.reachable_from(f, exact=True), key=lambda g: g.qname):
+                if g == f or g.module.name not in model.modules or g.qname in ALLOWED_RECURSION:
+                    continue
+                if g.qname in KNOWN_HELPERS:
+                    continue
+                if [n for n in ast.walk(g.node) if isinstance(n, ast.While)]:
+                    ok, msg = False, "%s, called from here, loops with while (line %s)" % (g.qname, g.node.lineno)
+                    break
+                if g in model.reachable_from_callees(g, callees):
+                    ok, msg = False, "%s, called from here, is recursive on the input (line %s)" % (g.qname, g.node.lineno)
+                    break
         rep.ob("R-NO-UNBOUNDED", f.qname, ok, site=f.module.site(f.node), msg=msg)
     rep.floor("R-NO-UNBOUNDED", 60)
 
